@@ -14,8 +14,8 @@ RULE = ('random histories (10-60 steps) and all sequences of length 3 over {var,
         'history drops a handle before a collection or reordering; distinct = operation sequence prefix.')
 EXHAUSTIVE = {'quick': False, 'thorough': False}
 REQUIRED_COUNTERS = ['steps']
-OPS = ['var', 'build', 'apply', 'ite', 'quant', 'let', 'expr', 'succ', 'copyh', 'drop', 'gc', 'sift', 'order']
-W = [3, 3, 5, 2, 2, 2, 1, 2, 2, 6, 3, 1, 1]
+OPS = ['var', 'build', 'apply', 'ite', 'quant', 'let', 'expr', 'succ', 'copyh', 'drop', 'gc', 'sift', 'order', 'copyout', 'image']
+W = [3, 3, 5, 2, 2, 2, 1, 2, 2, 6, 3, 1, 1, 1, 1]
 
 
 def bounds(tier):
